@@ -284,6 +284,15 @@ func c04Gen(g *core.Gen) {
 		dl := *d
 		dl.VolLast = true
 		g.Emit(&p1Case{Dec: &dl})
+		if d.Fault {
+			// ... and from a directory in which both data files and that volume are already gone (the first attempt is
+			// refused for want of volumes, then the volume arrives)
+			for _, last := range []bool{false, true} {
+				ds := *d
+				ds.Start, ds.VolLast = 1, last
+				g.Emit(&p1Case{Dec: &ds})
+			}
+		}
 	})
 	sizesSet := []int{0, 1, 2, 5, 9}
 	maxFiles := 3
